@@ -338,4 +338,73 @@ theorem callInputE_of_inputsOK {α : Type} (c : Ctor) (flds : List (String × Fi
           simp_all [boundIn, mkInput, rejectsIn, acceptedIn, paramHasDefault])
       | simp_all [boundIn, mkInput, rejectsIn, acceptedIn, paramHasDefault]
 
+/-! the closed form of the trimming loop -/
+
+theorem lp_fst (xs : List (Option String)) (a b : Nat) :
+    (xs.foldl (fun (acc : Nat × Nat) x => (acc.1 + 1, if x.isSome then acc.1 + 1 else acc.2)) (a, b)).1
+      = a + xs.length := by
+  induction xs generalizing a b with
+  | nil => rfl
+  | cons x xs ih => simp only [List.foldl_cons, List.length_cons]; rw [ih]; omega
+
+theorem lastPresent_snoc (ys : List (Option String)) (x : Option String) :
+    lastPresent (ys ++ [x]) = if x.isSome then ys.length + 1 else lastPresent ys := by
+  unfold lastPresent
+  rw [List.foldl_append]
+  simp only [List.foldl_cons, List.foldl_nil]
+  have := lp_fst ys 0 0
+  simp only [Nat.zero_add] at this
+  rw [this]
+
+theorem lastPresent_le (xs : List (Option String)) : lastPresent xs ≤ xs.length := by
+  have key : ∀ r : List (Option String), lastPresent r.reverse ≤ r.length := by
+    intro r
+    induction r with
+    | nil => simp [lastPresent]
+    | cons x r ih =>
+      rw [List.reverse_cons, lastPresent_snoc]
+      split
+      · simp
+      · simp only [List.length_cons]; omega
+  have := key xs.reverse
+  simpa using this
+
+theorem trimRev_closed (minN : Nat) (r : List (Option String)) :
+    (Emit.trimRev minN r).reverse = specSlots minN r.reverse := by
+  induction r with
+  | nil => simp [Emit.trimRev, specSlots]
+  | cons x r ih =>
+    cases x with
+    | some v =>
+      simp only [Emit.trimRev, specSlots, List.reverse_cons, lastPresent_snoc, Option.isSome_some, if_true,
+        List.length_append, List.length_reverse, List.length_cons, List.length_nil]
+      rw [List.take_of_length_le]
+      simp only [List.length_append, List.length_reverse, List.length_cons, List.length_nil]
+      omega
+    | none =>
+      simp only [Emit.trimRev]
+      by_cases h : r.length + 1 > minN
+      · rw [if_pos h, ih]
+        simp only [specSlots, List.reverse_cons, lastPresent_snoc, Option.isSome_none, Bool.false_eq_true,
+          if_false, List.length_append, List.length_reverse, List.length_cons, List.length_nil]
+        have hle := lastPresent_le r.reverse
+        simp only [List.length_reverse] at hle
+        have h1 : min minN (r.length + 1) = minN := by omega
+        have h2 : min minN r.length = minN := by omega
+        rw [h1, h2, List.take_append_of_le_length]
+        simp only [List.length_reverse]
+        omega
+      · rw [if_neg h]
+        simp only [specSlots, List.reverse_cons, List.length_append, List.length_reverse, List.length_cons,
+          List.length_nil]
+        rw [List.take_of_length_le]
+        simp only [List.length_append, List.length_reverse, List.length_cons, List.length_nil]
+        omega
+
+/-- `Node.to_onnx`'s popping loop = "cut after the last present name, never below `min`" -/
+theorem emitSlots_closed (minN : Nat) (args : List (Emit.Arg String)) :
+    Emit.emitSlots minN args = specSlots minN (Emit.flatten args) := by
+  unfold Emit.emitSlots Emit.trim
+  rw [trimRev_closed, List.reverse_reverse]
+
 end Conform
